@@ -141,6 +141,9 @@ UNDECIDED_PATTERNS = [
     re.compile(r"is not currently supported by Kani"),
     re.compile(r"unsupported construct", re.I),
     re.compile(r"recursion unwinding assertion"),
+    # structural anchors of HC+stub contracts ("the code has the call structure this contract is
+    # written for"): code of another shape is outside the contract's reach, not a violation
+    re.compile(r"\banchor: "),
 ]
 
 
